@@ -39,13 +39,13 @@ CHECKS = {
         technique="Coq proof over R on a model translated from the source on every run (field/nra/interval/Coquelicot) + interval enclosures",
         design="5/C09"),
     "C08": dict(
-        text=("coq/gen/em.v is REGENERATED from typhon/physics/em.py on every run by the fail-closed translator; 18 theorems over the "
+        text=("coq/gen/em.v is REGENERATED from typhon/physics/em.py on every run by the fail-closed translator; 20 theorems over the "
               "reals are re-checked against it, for ALL positive f and T (not only the sampled range): radiance2planckTb inverts planck, "
               "radiance2rayleighjeansTb inverts rayleighjeans, planck > 0, strictly increasing in T, planck < rayleighjeans and "
               "(1 - x) rayleighjeans < planck for x = hf/kT < 1 (the approach to Rayleigh-Jeans), wavelength/wavenumber forms equal "
               "planck f^2/c resp. c planck, the six unit converters are mutually inverse and commute, the four spectral-density "
               "converters (hand model on lists of any length, tied element-wise) are inverse to each other and map one Planck form "
-              "onto the other, Snell's law up to total reflection, the complex-n2 branch reduces to the real law when Im(n2) = 0, and for real refractive indices |Rv|,|Rh| <= 1, |Rv| = |Rh| at "
+              "onto the other, Snell's law up to total reflection, the complex-n2 branch satisfies Liou's form of the law (tan t2 = sin t1 / Re sqrt(N^2 - sin^2 t1)) for every n2 with positive real part and reduces to the real law when Im(n2) = 0, and for real refractive indices |Rv|,|Rh| <= 1, |Rv| = |Rh| at "
               "normal incidence, Rv = 0 at the Brewster angle. Complex n2: the Snell branch is translated and enclosed, the "
               "Fresnel bound is only swept numerically (named gap). Floats are tied by interval enclosures proved in Coq."),
         note=COMMON_NOTE + " Translator trusted for the whitelisted subset (mitigated by enclosures); the reshape/[::-1]/broadcast plumbing of "
